@@ -5,10 +5,14 @@ import json as _json
 PROP = "C13"
 LEVEL = "proof"
 LEVEL_TEXT = "partial"
-LEVEL_NOTE = ("proof for the PhyloXML clade round trip, the first-tree/iterator agreement of each format and the Nexus "
-              "parser's totality on the modelled value/token level; the XML and JSON text layers are encoding/xml / "
-              "encoding/json (trusted, observed through every case); the Nexus text round trip is checked by the "
-              "correspondence (model text = Go text byte for byte, model parse = Go parse) rather than proved")
+LEVEL_NOTE = ("proved for all inputs: the PhyloXML clade round trip (same rose); Newick -> Nexus -> parse without translate table "
+              "(token level for any Newick writer/parser; with the C01 writer/parser every tree comes back with the same rose) under "
+              "decidable side conditions on the written Newick text (newick_ok: readable inside a TREE command) and the taxon sets; "
+              "with a translate table at the token level, plus 'the table read back inverts the writer's map' and 'Rename with an "
+              "inverse table preserves the rose'; first-tree = head of iteration for the four formats; ids consecutive; the "
+              "multi-Newick reader as a function of the physical lines. Not proved, checked by the correspondence on every case: "
+              "that newick_ok holds for every written tree with legal labels, and the no-duplicate side conditions of Tree.Rename "
+              "in the translate chain. The XML and JSON text layers are encoding/xml / encoding/json (trusted, observed)")
 RULE = ("lists of 1..5 random well-formed trees (2..12 tips, rooted / unrooted / multifurcating, parent slots at random "
         "positions, lengths absent/zero/dyadic, supports on unnamed inner branches, named inner nodes) with labels legal in "
         "the three formats (plain, digits only, UTF-8, punctuation other than blanks = quotes < > & and the Newick "
